@@ -239,6 +239,23 @@ func CheckC04(c *Ctx, entry, input string) {
 		if pv, _ := callSUT(func() { ast.Walk(root, nopVisitor{}) }); pv != nil {
 			c.Violate("c04:panic:Walk:"+PanicClass(pv), entry, input, fmt.Sprintf("Walk panics: %v", pv))
 		}
+		// early stops: a consumer that leaves the loop (or prunes) after k nodes must not make the traversal panic
+		for _, cut := range earlyCuts(visited, nil) {
+			if pv, _ := callSUT(func() {
+				k := 0
+				for range ast.Preorder(root) {
+					k++
+					if k >= cut {
+						break
+					}
+				}
+				k = 0
+				ast.Inspect(root, func(ast.Node) bool { k++; return k < cut })
+			}); pv != nil {
+				c.Violate("c04:panic:Preorder-early-stop:"+PanicClass(pv), entry, input, fmt.Sprintf("Preorder / Inspect stopped after %d of %d nodes panics: %v", cut, visited, pv))
+				break
+			}
+		}
 		if has, _ := astx.HasBad(infos); has {
 			c.Count("trees_with_bad_nodes", 1)
 			for _, in := range infos {
@@ -265,8 +282,63 @@ func CheckC04(c *Ctx, entry, input string) {
 			}); pv != nil {
 				c.Violate("c04:panic:WalkMany:"+PanicClass(pv), entry, input, fmt.Sprintf("*Many traversal panics: %v", pv))
 			}
+			// early stops of the *Many variants: in every root, at every root boundary, and in between
+			var bounds []int
+			total := 0
+			for _, r := range p.Roots {
+				n := 0
+				if pv, _ := callSUT(func() { ast.Inspect(r, func(ast.Node) bool { n++; return true }) }); pv != nil {
+					break
+				}
+				total += n
+				bounds = append(bounds, total)
+			}
+			for _, cut := range earlyCuts(total, bounds) {
+				if pv, _ := callSUT(func() {
+					k := 0
+					for range ast.PreorderMany(p.Roots) {
+						k++
+						if k >= cut {
+							break
+						}
+					}
+					k = 0
+					ast.InspectMany(p.Roots, func(ast.Node) bool { k++; return k < cut })
+				}); pv != nil {
+					c.Violate("c04:panic:PreorderMany-early-stop:"+PanicClass(pv), entry, input, fmt.Sprintf("PreorderMany / InspectMany over %d roots stopped after %d of %d nodes panics: %v", len(p.Roots), cut, total, pv))
+					break
+				}
+				c.Count("many_early_stops", 1)
+			}
 		}
 	}
+}
+
+// earlyCuts returns the stop points (1-based number of nodes consumed) to try for a traversal of n nodes: the first
+// two, the middle, the last two, and around every given boundary (cumulative node counts of the roots), at most 14.
+func earlyCuts(n int, bounds []int) []int {
+	seen := map[int]bool{}
+	var out []int
+	add := func(k int) {
+		if k >= 1 && k <= n && !seen[k] && len(out) < 14 {
+			seen[k] = true
+			out = append(out, k)
+		}
+	}
+	add(1)
+	add(2)
+	add(n / 2)
+	add(n - 1)
+	add(n)
+	for i, b := range bounds {
+		if i >= 3 {
+			break
+		}
+		add(b - 1)
+		add(b)
+		add(b + 1)
+	}
+	return out
 }
 
 type nopVisitor struct{}
